@@ -166,7 +166,7 @@ def c08(tier, seed):
 def c06(tier, seed):
     from harness import props
     text, names = props.gen_key(tier)
-    small = ("s_m", "s_r", "po_m", "po_r", "bx_mr", "rt_mr", "rf_mr", "ow_mr", "bxo_mr", "n_bx_ow")
+    small = ("s_m", "s_r", "po_m", "po_r", "bx_mr", "rt_mr", "rf_mr", "ow_mr", "bxo_mr", "n_bx_ow", "bx_rr", "rt_rr", "ow_rr", "rf_rr")
     acq_text, acq_names = props.gen_acq(tier, envs=("q",), kinds=lambda sh: sh.name in small)
     return checks.run_mirsym_property(
         "C06", tier, seed, {"h_key.rs": text, "h_acq.rs": acq_text}, codes("M_KEY_MODEL", "M_NO_PANIC", "M_TRY_VERDICT", "M_CLOSURE_COUNT", "M_BAD_RELEASE"),
